@@ -18,3 +18,35 @@ def reg(pid, title, parts, rule, level="exploration", require=None, assumptions=
 import glob as _glob, os as _os
 for _f in sorted(_glob.glob(_os.path.join(_os.path.dirname(_os.path.abspath(__file__)), "checks_d", "c*.py"))):
     exec(compile(open(_f).read(), _f, "exec"), {"reg": reg, "ASSUME_COMMON": ASSUME_COMMON})
+
+
+# Library reach probes (GV_PROBE in /repo, guard GSTLEARN_VERIF) that each check must have hit at least once, else the
+# run is INCONCLUSIVE: they show that the workload actually drove the mechanisms the property is anchored in.
+# (Checks whose cases run in forked children - C08, C09 - cannot report library probes: their counters die with the child.)
+REQUIRED_PROBES = {
+    "C01": ["krig.lhsIsoToHetero", "krig.rhsIsoToHetero", "krig.rhsCalculBlock", "krig.dualCalcul", "neigh.moving",
+            "neigh.movingSectorNsmax", "neigh.movingSelect"],
+    "C02": ["krig.lhsIsoToHetero", "krig.rhsIsoToHetero", "krig.rhsCalculBlock", "krig.xvalidUnique", "neigh.moving"],
+    "C03": ["cov.evalCovMatrixOptim", "cov.evalCovMatrixSymmetricOptim", "cov.evalOptimInPlace"],
+    "C04": ["cov.evalCovMatrixOptim", "cov.evalCovMatrixSymmetricOptim", "cov.evalOptimInPlace", "krig.xvalidUnique",
+            "krig.bayesPreCalculations", "neigh.moving", "krig.rhsCalculBlock"],
+    "C05": ["neigh.moving", "krig.lhsIsoToHetero", "krig.xvalidUnique", "vario.generalSolution1", "vario.generalSolution2",
+            "simtub.simulatePoint", "simtub.difference", "poly.inside", "pca.dbZ2F", "anam.hermite.fit"],
+    "C06": ["neigh.moving", "neigh.movingSectorNsmax", "neigh.movingSelect"],
+    "C10": ["cov.evalCovMatrixOptim", "neigh.moving", "vario.generalSolution1", "krig.dualCalcul"],
+    "C12": ["vario.generalSolution1", "vario.generalSolution2", "vario.onGridSolution", "vario.genOnGridSolution"],
+    "C13": ["simtub.simulatePoint", "simtub.difference", "spde.precisionOp.addEvalPower", "neigh.moving"],
+    "C14": ["simtub.simulatePoint", "spde.precisionOp.addEvalPower", "spde.chebychev.evalOp"],
+    "C15": ["spde.chebychev.evalOp", "spde.precisionOp.addEvalPower", "mesh.turbo.resetProjMatrix",
+            "mesh.standard.resetProjMatrix"],
+    "C16": ["grid.coordinateToIndices"],
+    "C17": ["fit.foxleg_f", "fit.goulard"],
+    "C18": ["anam.hermite.fit", "anam.hermite.rawToTransformValue", "pca.calculateEigen", "pca.dbZ2F"],
+    "C19": ["calc.rollback.kriging", "calc.rollback.simtub", "calc.rollback.migrate", "calc.rollback.statistics",
+            "calc.cleanVariableDb"],
+    "C20": ["poly.inside"],
+}
+for _pid, _pr in REQUIRED_PROBES.items():
+    if _pid in CHECKS:
+        _req = CHECKS[_pid].setdefault("require", {})
+        _req["probes"] = sorted(set(_req.get("probes", []) + _pr))
